@@ -11,6 +11,9 @@ import (
 	"fmt"
 	"go/ast"
 	"go/printer"
+	"os"
+	"path/filepath"
+	"sort"
 	"strings"
 )
 
@@ -121,13 +124,85 @@ func genMoreFacts(facts map[string]interface{}) string {
 		}
 		return "[" + strings.Join(out, ", ") + "]"
 	}
-	facts["more_facts"] = map[string]interface{}{"storage_fields": fields, "reader_assigns": assigns, "verify_accepts": accepts}
+	// wall-clock reads: every function of the round machines and of the node services that mentions a clock-reading
+	// function of package time (under whatever name the file imports it)
+	clockFns := map[string]bool{"Now": true, "Since": true, "Until": true, "After": true, "Tick": true, "NewTimer": true, "NewTicker": true, "AfterFunc": true, "Sleep": true}
+	var clockReads [][2]string
+	var clockDirs []string
+	for _, root := range []string{"fsm", "client/services", "client/repositories", "storage/file_storage"} {
+		filepath.Walk(filepath.Join(*repo, root), func(path string, fi os.FileInfo, err error) error {
+			if err == nil && fi.IsDir() {
+				if ms, _ := filepath.Glob(filepath.Join(path, "*.go")); len(ms) > 0 {
+					rel, _ := filepath.Rel(*repo, path)
+					clockDirs = append(clockDirs, rel)
+				}
+			}
+			return nil
+		})
+	}
+	sort.Strings(clockDirs)
+	for _, dir := range clockDirs {
+		pk := loadPkg(dir)
+		for _, f := range pk.files {
+			timeName := ""
+			for _, im := range f.Imports {
+				if im.Path.Value == `"time"` {
+					timeName = "time"
+					if im.Name != nil {
+						timeName = im.Name.Name
+					}
+				}
+			}
+			if timeName == "" || timeName == "_" {
+				continue
+			}
+			if timeName == "." {
+				die("%s imports package time with a dot: clock reads cannot be listed", dir)
+			}
+			for _, d := range f.Decls {
+				fd, ok := d.(*ast.FuncDecl)
+				if !ok || fd.Body == nil {
+					if gd, ok := d.(*ast.GenDecl); ok {
+						ast.Inspect(gd, func(n ast.Node) bool {
+							if se, ok := n.(*ast.SelectorExpr); ok {
+								if id, ok := se.X.(*ast.Ident); ok && id.Name == timeName && clockFns[se.Sel.Name] {
+									clockReads = append(clockReads, [2]string{dir, "package-level " + se.Sel.Name})
+								}
+							}
+							return true
+						})
+					}
+					continue
+				}
+				seen := map[string]bool{}
+				ast.Inspect(fd.Body, func(n ast.Node) bool {
+					if se, ok := n.(*ast.SelectorExpr); ok {
+						if id, ok := se.X.(*ast.Ident); ok && id.Name == timeName && clockFns[se.Sel.Name] && !seen[se.Sel.Name] {
+							seen[se.Sel.Name] = true
+							clockReads = append(clockReads, [2]string{dir, fd.Name.Name + ":" + se.Sel.Name})
+						}
+					}
+					return true
+				})
+			}
+		}
+	}
+	facts["more_facts"] = map[string]interface{}{"storage_fields": fields, "reader_assigns": assigns, "verify_accepts": accepts, "clock_reads": clockReads, "clock_dirs": clockDirs}
 	var b strings.Builder
 	b.WriteString("-- GENERATED by /verif/translator from /repo storage/file_storage/fileStorage.go and client/services/node/node_service.go. DO NOT EDIT.\n")
 	b.WriteString("namespace Dc4bcVerif.Gen.MoreFacts\n\n")
 	fmt.Fprintf(&b, "/-- fields of `FileStorage` -/\ndef storageFields : List String := %s\n\n", q(fields))
 	fmt.Fprintf(&b, "/-- fields of its receiver that `GetMessages` assigns to -/\ndef readerAssigns : List String := %s\n\n", q(assigns))
 	fmt.Fprintf(&b, "/-- `verifyMessage`: the condition under which each `return nil` is reached (\"end\": the final one, after the signature was verified) -/\ndef verifyAccepts : List String := %s\n\n", q(accepts))
+	fmt.Fprintf(&b, "/-- the source directories searched for clock reads (every directory with Go files under fsm, client/services, client/repositories, storage/file_storage) -/\ndef clockDirs : List String := %s\n\n", q(clockDirs))
+	b.WriteString("/-- (directory, function:what) for every function there that reads the wall clock through package `time` -/\ndef clockReads : List (String × String) := [")
+	for i, cr := range clockReads {
+		if i > 0 {
+			b.WriteString(", ")
+		}
+		fmt.Fprintf(&b, "(%s, %s)", leanStr(cr[0]), leanStr(cr[1]))
+	}
+	b.WriteString("]\n\n")
 	b.WriteString("end Dc4bcVerif.Gen.MoreFacts\n")
 	return b.String()
 }
